@@ -1,4 +1,293 @@
 import MetapypeModel.Model.Lex
+import MetapypeModel.Gen.Rules
+import MetapypeModel.Gen.Facts
+/-
+  C02 — content validation decides exactly as the rule's content constraints require.
+
+  The typed predicates (CPython `float`/`int`/`strptime`/`fromisoformat`, `rfc3986`) are
+  parameters of the model (`Lexer`).  The dispatch theorems hold for EVERY lexer; the
+  lexical theorems are about the classifiers of Model/Lex.lean, which are tied to the real
+  parsers by the correspondence check only (trusted base).
+-/
 namespace Metapype
-theorem C02_placeholder : True := trivial
+
+/-- one declared content constraint, stated declaratively -/
+def ContentRuleOK (L : Lexer) (M : Bool) (nKids : Nat) (c : Option String) (cr : String) : Prop :=
+  if cr = "emptyContent" then c = none
+  else if cr = "nonEmptyContent" then (c ≠ none ∧ c ≠ some "") ∨ (M = true ∧ 0 < nKids)
+  else if cr = "floatContent" then ∀ s, c = some s → L.isFloat s = true
+  else if cr = "floatRangeContent_EW" then ∀ s, c = some s → L.isFloat s = true ∧ L.inRangeEW s = true
+  else if cr = "floatRangeContent_NS" then ∀ s, c = some s → L.isFloat s = true ∧ L.inRangeNS s = true
+  else if cr = "floatContent_Nonnegative" then ∀ s, c = some s → L.isFloat s = true ∧ L.nonNeg s = true
+  else if cr = "intContent" then ∀ s, c = some s → L.isInt s = true
+  else if cr = "timeContent" then ∀ s, c = some s → L.isTime s = true
+  else if cr = "uriContent" then ∀ s, c = some s → L.isUri s = true
+  else if cr = "yearDateContent" then ∀ s, c = some s → L.isYearDate s = true
+  else if cr = "strContent" ∨ cr = "anyContent" then True
+  else False
+
+/-- the conjunction over the rule's `content_rules` and `content_enum` -/
+def ContentOK (L : Lexer) (r : Rule) (M : Bool) (nKids : Nat) (c : Option String) : Prop :=
+  (∀ cr ∈ r.contentRules, ContentRuleOK L M nKids c cr) ∧
+  (∀ vs, r.contentEnum = some vs → ∃ s, c = some s ∧ s ∈ vs)
+
+theorem C02_rule_decides (L : Lexer) (M : Bool) (n : Nat) (c : Option String) (cr : String) :
+    validateContentRule L M n c cr = [] ↔ ContentRuleOK L M n c cr := by
+  unfold validateContentRule ContentRuleOK validateRanged
+  by_cases h1 : cr = "emptyContent"
+  · simp only [if_pos h1]; cases c <;> simp
+  simp only [if_neg h1]
+  by_cases h2 : cr = "floatContent"
+  · subst h2; simp only [if_true]
+    cases c with
+    | none => simp
+    | some s => cases hf : L.isFloat s <;> simp [hf]
+  simp only [if_neg h2]
+  by_cases h3 : cr = "floatRangeContent_EW"
+  · subst h3; simp only [if_true]
+    cases c with
+    | none => simp
+    | some s => cases hf : L.isFloat s <;> cases hr : L.inRangeEW s <;> simp [hf, hr]
+  simp only [if_neg h3]
+  by_cases h4 : cr = "floatRangeContent_NS"
+  · subst h4; simp only [if_true]
+    cases c with
+    | none => simp
+    | some s => cases hf : L.isFloat s <;> cases hr : L.inRangeNS s <;> simp [hf, hr]
+  simp only [if_neg h4]
+  by_cases h5 : cr = "floatContent_Nonnegative"
+  · subst h5; simp only [if_true]
+    cases c with
+    | none => simp
+    | some s => cases hf : L.isFloat s <;> cases hr : L.nonNeg s <;> simp [hf, hr]
+  simp only [if_neg h5]
+  by_cases h6 : cr = "intContent"
+  · subst h6; simp only [if_true]
+    cases c with
+    | none => simp
+    | some s => cases hf : L.isInt s <;> simp [hf]
+  simp only [if_neg h6]
+  by_cases h7 : cr = "nonEmptyContent"
+  · subst h7; simp only [if_true]
+    cases c with
+    | none => cases M <;> simp <;> omega
+    | some s =>
+      by_cases hs : s = ""
+      · subst hs; cases M <;> simp <;> omega
+      · simp [hs]
+  simp only [if_neg h7]
+  by_cases h8 : cr = "strContent"
+  · subst h8; simp
+  simp only [if_neg h8]
+  by_cases h9 : cr = "timeContent"
+  · subst h9; simp only [if_true]
+    cases c with
+    | none => simp
+    | some s => cases hf : L.isTime s <;> simp [hf]
+  simp only [if_neg h9]
+  by_cases h10 : cr = "uriContent"
+  · subst h10; simp only [if_true]
+    cases c with
+    | none => simp
+    | some s => cases hf : L.isUri s <;> simp [hf]
+  simp only [if_neg h10]
+  by_cases h11 : cr = "yearDateContent"
+  · subst h11; simp only [if_true]
+    cases c with
+    | none => simp
+    | some s => cases hf : L.isYearDate s <;> simp [hf]
+  simp only [if_neg h11]
+  by_cases h12 : cr = "anyContent"
+  · subst h12; simp
+  simp [h12, h8]
+
+/-- acceptance ⇔ the declared content constraints hold (every lexer, every rule, every content incl. None) -/
+theorem C02_decides (L : Lexer) (r : Rule) (M : Bool) (n : Nat) (c : Option String) :
+    validateContent L r M n c = [] ↔ ContentOK L r M n c := by
+  unfold validateContent ContentOK
+  rw [List.append_eq_nil_iff, List.flatMap_eq_nil_iff]
+  apply and_congr
+  · constructor
+    · intro h cr hcr; exact (C02_rule_decides L M n c cr).mp (h cr hcr)
+    · intro h cr hcr; exact (C02_rule_decides L M n c cr).mpr (h cr hcr)
+  · cases r.contentEnum with
+    | none => simp
+    | some vs =>
+      cases c with
+      | none => simp
+      | some s => by_cases hm : vs.contains s = true <;> simp_all
+
+/-- content validation only ever reports content errors — never a crash, also for content `None` -/
+theorem C02_family (L : Lexer) (r : Rule) (M : Bool) (n : Nat) (c : Option String) :
+    ∀ e ∈ validateContent L r M n c, ∃ k, e = .err k ∧ k ∈ [ErrKind.expectedEmpty, .expectedEnum, .expectedInt, .expectedFloat,
+      .expectedRange, .expectedNonempty, .expectedString, .expectedTime, .expectedUri, .expectedYear, .unknownContentRule] := by
+  intro e he
+  simp only [validateContent, List.mem_append, List.mem_flatMap] at he
+  rcases he with ⟨cr, _, he⟩ | he
+  · revert e
+    unfold validateContentRule validateRanged
+    have one : ∀ k ∈ [ErrKind.expectedEmpty, .expectedEnum, .expectedInt, .expectedFloat,
+      .expectedRange, .expectedNonempty, .expectedString, .expectedTime, .expectedUri, .expectedYear, .unknownContentRule],
+      ∀ e ∈ [Ev.err k], ∃ k', e = .err k' ∧ k' ∈ [ErrKind.expectedEmpty, .expectedEnum, .expectedInt, .expectedFloat,
+      .expectedRange, .expectedNonempty, .expectedString, .expectedTime, .expectedUri, .expectedYear, .unknownContentRule] := by
+      intro k hk e he; simp only [List.mem_singleton] at he; exact ⟨k, he, hk⟩
+    have nil : ∀ e ∈ ([] : List Ev), ∃ k', e = .err k' ∧ k' ∈ [ErrKind.expectedEmpty, .expectedEnum, .expectedInt, .expectedFloat,
+      .expectedRange, .expectedNonempty, .expectedString, .expectedTime, .expectedUri, .expectedYear, .unknownContentRule] := by
+      intro e he; cases he
+    have ite : ∀ {p : Prop} [Decidable p] {a b : List Ev} {P : Ev → Prop}, (∀ e ∈ a, P e) → (∀ e ∈ b, P e) →
+        ∀ e ∈ (if p then a else b), P e := by
+      intro p _ a b P ha hb; split <;> assumption
+    cases c <;>
+    repeat (first | exact nil | exact one _ (by decide) | apply ite)
+  · cases hce : r.contentEnum with
+    | none => rw [hce] at he; cases he
+    | some vs =>
+      rw [hce] at he
+      cases c with
+      | none => simp only [List.mem_singleton] at he; exact ⟨_, he, by decide⟩
+      | some s =>
+        simp only at he
+        split at he
+        · cases he
+        · simp only [List.mem_singleton] at he; exact ⟨_, he, by decide⟩
+
+/-- the same way in both modes: fail-fast raises iff collecting mode reports something -/
+theorem C02_modes (L : Lexer) (r : Rule) (M : Bool) (n : Nat) (c : Option String) :
+    (validateContent L r M n c).head? = none ↔ validateContent L r M n c = [] := by
+  cases validateContent L r M n c <;> simp
+
+/-- NaN and the infinities are outside every range: the ranged classifiers reject them -/
+theorem C02_ranged_rejects_nonfinite (b : Nat) (s : List Char)
+    (h : Lex.parseFloat s = some .nan ∨ ∃ neg, Lex.parseFloat s = some (.inf neg)) :
+    Lex.classRange b s = .reject := by
+  unfold Lex.classRange
+  rcases h with h | ⟨neg, h⟩ <;> rw [h]
+
+theorem C02_nonneg_rejects_nan_neginf (s : List Char)
+    (h : Lex.parseFloat s = some .nan ∨ Lex.parseFloat s = some (.inf true)) :
+    Lex.classNonNeg s = .reject := by
+  unfold Lex.classNonNeg
+  rcases h with h | h <;> rw [h] <;> rfl
+
+/-- boundary values are inside the closed range whatever their spelling (kernel-evaluated instances) -/
+theorem C02_boundaries_accepted :
+    (["180", "-180", "180.0", "+180.000", "1.8e2", "18e1", "1800e-1", "0.18E3", "-0", "0"].all
+        (fun s => Lex.classRange 180 s.toList == .accept)) = true ∧
+    (["90", "-90", "90.", "9e1", "900e-1", "-0.9e2"].all (fun s => Lex.classRange 90 s.toList == .accept)) = true ∧
+    (["180.0001", "-180.5", "181", "1e3", "1e400", "nan", "inf", "-inf", "NaN", "Infinity", "abc", ""].all
+        (fun s => Lex.classRange 180 s.toList == .reject)) = true ∧
+    (["0", "-0", "0.0", "1e-400", "inf"].all (fun s => Lex.classNonNeg s.toList == .accept)) = true ∧
+    (["-1", "-0.000001", "-inf", "nan", "-1e400"].all (fun s => Lex.classNonNeg s.toList == .reject)) = true := by
+  decide +kernel
+
+/-- canonical integers are accepted: optional sign followed by ASCII digits -/
+theorem C02_int_canonical (ds : List Char) (h : Lex.allDigits ds = true) :
+    Lex.classInt ds = .accept ∧ Lex.classInt ('+' :: ds) = .accept ∧ Lex.classInt ('-' :: ds) = .accept := by
+  have h0 : Lex.allDigits (Lex.stripSign ds).2 = true := by
+    cases ds with
+    | nil => simp [Lex.allDigits] at h
+    | cons d t =>
+      have hd : Lex.isDigit d = true := by
+        simp only [Lex.allDigits, Bool.and_eq_true, List.all_cons] at h; exact h.2.1
+      have h1 : d ≠ '+' := by intro hh; subst hh; simp [Lex.isDigit] at hd
+      have h2 : d ≠ '-' := by intro hh; subst hh; simp [Lex.isDigit] at hd
+      unfold Lex.stripSign
+      split
+      · rename_i heq; simp only [List.cons.injEq] at heq; exact absurd heq.1 h1
+      · rename_i heq; simp only [List.cons.injEq] at heq; exact absurd heq.1 h2
+      · exact h
+  refine ⟨?_, ?_, ?_⟩
+  · unfold Lex.classInt; rw [h0]; rfl
+  · unfold Lex.classInt; simp only [Lex.stripSign, h]; rfl
+  · unfold Lex.classInt; simp only [Lex.stripSign, h]; rfl
+
+/-- the content-rule names the model's dispatch (Model/Rule.lean) has an arm for -/
+def modelDispatch : List String := ["emptyContent", "floatContent", "floatRangeContent_EW", "floatRangeContent_NS", "floatContent_Nonnegative", "intContent", "nonEmptyContent", "strContent", "timeContent", "uriContent", "yearDateContent", "anyContent"]
+
+theorem vcr_known (L : Lexer) (M : Bool) (n : Nat) (c : Option String) (cr : String) (h : cr ∈ modelDispatch) :
+    ∀ e ∈ validateContentRule L M n c cr, e ≠ .err .unknownContentRule := by
+  have one : ∀ k, k ≠ ErrKind.unknownContentRule → ∀ e ∈ [Ev.err k], e ≠ .err .unknownContentRule := by
+    intro k hk e he; simp only [List.mem_singleton] at he; subst he; intro hh; cases hh; exact hk rfl
+  have nil : ∀ e ∈ ([] : List Ev), e ≠ .err .unknownContentRule := by intro e he; cases he
+  have ite : ∀ {p : Prop} [Decidable p] {a b : List Ev} {P : Ev → Prop}, (∀ e ∈ a, P e) → (∀ e ∈ b, P e) →
+      ∀ e ∈ (if p then a else b), P e := by
+    intro p _ a b P ha hb; split <;> assumption
+  unfold validateContentRule validateRanged
+  by_cases h0 : cr = "emptyContent"
+  · simp only [if_pos h0]
+    cases c <;> repeat (first | exact nil | exact one _ (by decide) | apply ite)
+  simp only [if_neg h0]
+  by_cases h1 : cr = "floatContent"
+  · simp only [if_pos h1]
+    cases c <;> repeat (first | exact nil | exact one _ (by decide) | apply ite)
+  simp only [if_neg h1]
+  by_cases h2 : cr = "floatRangeContent_EW"
+  · simp only [if_pos h2]
+    cases c <;> repeat (first | exact nil | exact one _ (by decide) | apply ite)
+  simp only [if_neg h2]
+  by_cases h3 : cr = "floatRangeContent_NS"
+  · simp only [if_pos h3]
+    cases c <;> repeat (first | exact nil | exact one _ (by decide) | apply ite)
+  simp only [if_neg h3]
+  by_cases h4 : cr = "floatContent_Nonnegative"
+  · simp only [if_pos h4]
+    cases c <;> repeat (first | exact nil | exact one _ (by decide) | apply ite)
+  simp only [if_neg h4]
+  by_cases h5 : cr = "intContent"
+  · simp only [if_pos h5]
+    cases c <;> repeat (first | exact nil | exact one _ (by decide) | apply ite)
+  simp only [if_neg h5]
+  by_cases h6 : cr = "nonEmptyContent"
+  · simp only [if_pos h6]
+    cases c <;> repeat (first | exact nil | exact one _ (by decide) | apply ite)
+  simp only [if_neg h6]
+  by_cases h7 : cr = "strContent"
+  · simp only [if_pos h7]
+    cases c <;> repeat (first | exact nil | exact one _ (by decide) | apply ite)
+  simp only [if_neg h7]
+  by_cases h8 : cr = "timeContent"
+  · simp only [if_pos h8]
+    cases c <;> repeat (first | exact nil | exact one _ (by decide) | apply ite)
+  simp only [if_neg h8]
+  by_cases h9 : cr = "uriContent"
+  · simp only [if_pos h9]
+    cases c <;> repeat (first | exact nil | exact one _ (by decide) | apply ite)
+  simp only [if_neg h9]
+  by_cases h10 : cr = "yearDateContent"
+  · simp only [if_pos h10]
+    cases c <;> repeat (first | exact nil | exact one _ (by decide) | apply ite)
+  simp only [if_neg h10]
+  by_cases h11 : cr = "anyContent"
+  · simp only [if_pos h11]
+    cases c <;> repeat (first | exact nil | exact one _ (by decide) | apply ite)
+  simp only [if_neg h11]
+  simp only [modelDispatch, List.mem_cons, List.not_mem_nil, or_false] at h
+  rcases h with h | h | h | h | h | h | h | h | h | h | h | h <;> contradiction
+
+theorem vcr_unknown (L : Lexer) (M : Bool) (n : Nat) (c : Option String) (cr : String) (h : cr ∉ modelDispatch) :
+    validateContentRule L M n c cr = [.err .unknownContentRule] := by
+  simp only [modelDispatch, List.mem_cons, List.not_mem_nil, or_false, not_or] at h
+  obtain ⟨h1, h2, h3, h4, h5, h6, h7, h8, h9, h10, h11, h12⟩ := h
+  simp only [validateContentRule, if_neg h1, if_neg h2, if_neg h3, if_neg h4, if_neg h5, if_neg h6, if_neg h7, if_neg h8,
+    if_neg h9, if_neg h10, if_neg h11, if_neg h12]
+
+/-- table side: the model's dispatch has an arm for exactly the content-rule names that have an arm in
+    `Rule._validate_content` (list regenerated from the source on every run) -/
+theorem C02_table_dispatch : (∀ x ∈ Gen.contentDispatch, x ∈ modelDispatch) ∧ (∀ x ∈ modelDispatch, x ∈ Gen.contentDispatch) := by
+  decide
+
+/-- hence a content-rule name is reported as UNKNOWN_CONTENT_RULE by the model exactly when the code has no arm for it -/
+theorem C02_unknown_iff (L : Lexer) (M : Bool) (n : Nat) (c : Option String) (cr : String) :
+    (.err .unknownContentRule) ∈ validateContentRule L M n c cr ↔ cr ∉ Gen.contentDispatch := by
+  constructor
+  · intro hm hin
+    exact vcr_known L M n c cr (C02_table_dispatch.1 cr hin) _ hm rfl
+  · intro hn
+    rw [vcr_unknown L M n c cr (fun h => hn (C02_table_dispatch.2 cr h))]
+    exact List.mem_singleton.mpr rfl
+
+/-- table side: every content rule a shipped rule uses is implemented -/
+theorem C02_table_rules_use_implemented : ∀ r ∈ Gen.rules, ∀ cr ∈ r.contentRules, cr ∈ Gen.contentDispatch := by
+  decide +kernel
+
 end Metapype
